@@ -55,6 +55,13 @@ type model struct {
 
 	// storeMode: the run serves TestPropDutyStoreServesValidation (property C10): dispatch misses are
 	// recorded as classes only, the case goes on
+	// retry liveness: a failed beacon-node call excuses a miss only until the handler had retryK healthy
+	// ticks (no failed call) inside the window in which it is supposed to (re-)fetch that epoch / period
+	goodTicks   []uint64       // slots of the processed ticks since the last failed call
+	from        map[uint64]int // goodTicks index from which ticks count for an epoch / period (set by its last voiding notice)
+	pendingFail map[uint64]bool
+	intentCur   map[uint64]bool // the pending (re-)fetch is one of the CURRENT epoch / period (else: of the next one)
+
 	storeMode    bool
 	failsTotal   map[uint64]int // failed fetches per epoch / period, ever
 	skippedSlots map[uint64]bool
@@ -212,6 +219,8 @@ func (m *model) notice(kind string, stamp, clock uint64) {
 		m.failsSince[u] = 0
 		m.anyFail[u] = false
 		m.lastVoid[u] = &voidInfo{kind: kind, stampUnit: m.unitOf(stamp)}
+		m.from[u] = len(m.goodTicks)
+		m.intentCur[u] = m.unitOf(stamp) == u
 		m.driftSince[u] = m.driftSince[u] || drifted
 		if kind == "indices" {
 			m.grace[u] = true
@@ -230,7 +239,7 @@ func (m *model) failf(sig, f string, a ...any) *prog.Failure {
 func (m *model) consume(step string, entries []logEntry, tc *tickCtx) *prog.Failure {
 	// obligations are fixed at the start of the tick: "fetched successfully before that tick"
 	var oblig []dkey
-	voidedStart, judged := false, false
+	voidedStart, judged, neverStart, hasVoid, failedNow := false, false, false, false, false
 	var vi voidInfo
 	var vDrift, vSkip bool
 	if tc != nil {
@@ -249,13 +258,14 @@ func (m *model) consume(step string, entries []logEntry, tc *tickCtx) *prog.Fail
 			m.classes["sync-last-slot-of-period-unjudged"] = true
 			judged = false
 		}
-		if a := m.last[m.unitOf(tc.slot)]; a != nil && judged {
+		u0 := m.unitOf(tc.slot)
+		if v := m.lastVoid[u0]; v != nil {
+			vi, hasVoid = *v, true
+		}
+		vDrift, vSkip = m.driftSince[u0], m.skipTrig[u0]
+		neverStart = judged && m.last[u0] == nil
+		if a := m.last[u0]; a != nil && judged {
 			voidedStart = !a.valid
-			u0 := m.unitOf(tc.slot)
-			if v := m.lastVoid[u0]; v != nil {
-				vi = *v
-			}
-			vDrift, vSkip = m.driftSince[u0], m.skipTrig[u0]
 			for _, k := range sortedKeys(a.duties) {
 				if a.valid && a.duties[k] && (m.role == "sync" || k.slot == tc.slot) {
 					oblig = append(oblig, k)
@@ -269,6 +279,14 @@ func (m *model) consume(step string, entries []logEntry, tc *tickCtx) *prog.Fail
 			m.classes["fetch-failure"] = true
 			m.failsSince[en.unit]++
 			m.failsTotal[en.unit]++
+			failedNow = true
+			m.goodTicks = nil
+			for u := range m.from {
+				m.from[u] = 0
+			}
+			// a failed call leaves the handler's flag set: which kind of fetch stays pending
+			m.intentCur[en.unit] = tc == nil || m.unitOf(tc.slot) == en.unit
+			m.pendingFail[en.unit] = true
 			for u := range m.lastVoid {
 				m.anyFail[u] = true
 			}
@@ -282,6 +300,10 @@ func (m *model) consume(step string, entries []logEntry, tc *tickCtx) *prog.Fail
 				}
 			}
 			m.last[en.unit] = &assign{duties: en.duties, valid: true}
+			if m.pendingFail[en.unit] {
+				delete(m.pendingFail, en.unit)
+				m.classes["retry:"+m.role+":fetched-after-a-failed-call"] = true
+			}
 			delete(m.lastVoid, en.unit)
 			delete(m.driftSince, en.unit)
 			delete(m.skipTrig, en.unit)
@@ -366,71 +388,139 @@ func (m *model) consume(step string, entries []logEntry, tc *tickCtx) *prog.Fail
 	}
 	// Middle reading: a voiding notice does not cancel the obligation, it only entitles the handler to
 	// re-fetch. While the assignment is voided (no successful fetch since the notice), every duty of the
-	// node's current assignment at this slot must be dispatched unless a fetch for this epoch / period
-	// failed since the notice (beacon-node fault) or this is the first tick after an indices-change
-	// notice (documented order there: execute, reset, fetch).
-	if a := m.last[u]; voidedStart && judged {
-		switch {
-		case m.grace[u]:
-			m.classes["voided:first-tick-after-indices-change(not judged)"] = true
-		case m.failsSince[u] > 0:
-			m.classes["voided:excused-by-failed-fetch"] = true
-		case m.anyFail[u]:
-			m.classes["voided:excused-by-failed-fetch-for-another-epoch"] = true
-		default:
-			// the node's current assignment as far as notices have been delivered (a reorg whose notice is
-			// still under way cannot oblige the handler), or what the handler re-fetched during this tick
-			required := m.current(u, m.mver[u])
-			if f := tc.fetched[u]; len(f) > 0 {
-				required = map[dkey]bool{}
-				for k, own := range f[len(f)-1] {
-					if own {
-						required[k] = true
-					}
-				}
+	// node's current assignment at this slot must be dispatched unless this is the first tick after an
+	// indices-change notice (documented order there: execute, reset, fetch) or a beacon-node call failed
+	// since the notice. Retry liveness: a failed call (for this epoch / period, or for another one: the
+	// handlers fetch the current epoch before the next) excuses only until the handler had retryK healthy
+	// ticks inside the window in which it is supposed to (re-)fetch; that also covers an epoch / period
+	// whose only fetch so far failed. The proposer handler does not retry: not judged there.
+	excuse := ""
+	switch {
+	case !judged:
+	case voidedStart && m.grace[u]:
+		m.classes["voided:first-tick-after-indices-change(not judged)"] = true
+	case voidedStart && m.failsSince[u] > 0:
+		excuse = "voided:excused-by-failed-fetch"
+	case voidedStart && m.anyFail[u]:
+		excuse = "voided:excused-by-failed-fetch-for-another-epoch"
+	case voidedStart:
+		if f := m.requireCurrent(step, tc, u, "missed-after-notice", hasVoid, vi, vDrift, vSkip); f != nil {
+			return f
+		}
+	case neverStart && m.failsTotal[u] > 0:
+		excuse = "never-fetched:excused-by-failed-fetch"
+	}
+	if excuse != "" {
+		switch h := m.healthyTicks(u); {
+		case m.role == "proposer":
+			m.classes[excuse] = true
+			if len(m.goodTicks) > 0 {
+				m.classes["retry:proposer:healthy-ticks-after-failed-call-but-no-retry(not judged)"] = true
 			}
-			for _, k := range sortedKeys(required) {
-				if m.role != "sync" && k.slot != tc.slot {
-					continue
-				}
-				m.obligations++
-				if m.seen[seenKey{m.primary(), k.val, tc.slot}] {
-					m.classes["voided:refetched-and-dispatched"] = true
-					continue
-				}
-				// Identify the mechanism (facts since this epoch / period was last fetched):
-				//  at-rollover: the notice that voided it last was stamped in an earlier epoch / period (it
-				//    voided the "next" one) and no tick of an earlier epoch / period was processed after it,
-				//    i.e. the handler had no tick left to re-fetch it as "next";
-				//  skipped-tick: the tick that triggers its pre-fetch was skipped;
-				//  clock-behind-ticker: a notice that voided it was evaluated with the clock behind the ticker.
-				sig := "missed-after-notice"
-				switch {
-				case vi.stampUnit < u && !vi.tickSince:
-					sig = "missed-after-notice-at-rollover"
-				case vSkip:
-					sig = "missed-after-notice-and-skipped-tick"
-				case vDrift:
-					sig = "missed-after-notice-with-clock-behind-ticker"
-				}
-				if full := "C16:" + m.role + "-" + sig; m.storeMode || prog.IsKnown(full) {
-					if !m.knownSeen[full] && !m.storeMode { // counted once per program; the case goes on behind it
-						m.knownSeen[full] = true
-						prog.KnownHit(testName, full)
-					}
-					m.classes["known:"+sig] = true
-					break
-				}
-				state := "still holds the voided one"
-				if a != nil && a.valid {
-					state = "re-fetched it during this tick"
-				}
-				return m.failf(sig, "%s: %v duty of validator %d at slot %d of the beacon node's current assignment for epoch/period %d was not dispatched: an assignment for it had been fetched successfully before, a %s notice (stamped in epoch/period %d) voided it last, no fetch has failed since, and the handler %s", step, m.primary(), k.val, tc.slot, u, vi.kind, vi.stampUnit, state)
+		case h < retryK:
+			m.classes[excuse] = true
+			if m.intentCur[u] {
+				m.classes["retry:"+m.role+":no-healthy-tick-since-the-failed-call-yet(not judged)"] = true
+			} else { // the window (ticks of the previous epoch / period) is over: the handlers do not carry a pending next-epoch fetch over
+				m.classes["retry:"+m.role+":fetch-still-pending-when-the-epoch-or-period-began(not judged)"] = true
+			}
+		default:
+			m.classes["retry:"+m.role+":judged:"+excuse] = true
+			if f := m.requireCurrent(step, tc, u, "missed-after-failed-fetch-with-healthy-node", hasVoid, vi, vDrift, vSkip); f != nil {
+				return f
 			}
 		}
 	}
+	if tc != nil && !failedNow {
+		m.goodTicks = append(m.goodTicks, tc.slot)
+	}
 	for g := range m.grace {
 		delete(m.grace, g)
+	}
+	return nil
+}
+
+const retryK = 1
+
+// healthyTicks: processed ticks without a failed call, since the last failed call and since the last
+// voiding notice for u, that lie in the window in which the handler is supposed to (re-)fetch u: ticks of
+// u itself for a pending fetch of the current epoch / period; for a pending fetch of the next one the
+// ticks of u-1 (attester: from slot SlotsPerEpoch/2-1 of the epoch on, where processFetching asks for the
+// next epoch). The tick being judged is not counted (the handlers execute before they fetch).
+func (m *model) healthyTicks(u uint64) int {
+	n := 0
+	from := m.from[u]
+	if from > len(m.goodTicks) {
+		from = 0
+	}
+	for _, t := range m.goodTicks[from:] {
+		switch tu := m.unitOf(t); {
+		case m.intentCur[u] && tu == u:
+			n++
+		case !m.intentCur[u] && u > 0 && tu == u-1 && (m.role != "attester" || t%slotsPerEpoch > slotsPerEpoch/2-2):
+			n++
+		}
+	}
+	return n
+}
+
+// requireCurrent: every duty of the operator's validators at the tick's slot in the node's current assignment
+// for u (as far as notices have been delivered; or what the handler fetched during this tick) must have been
+// dispatched. A miss is classified by mechanism (known-finding families) before it is reported as base.
+func (m *model) requireCurrent(step string, tc *tickCtx, u uint64, base string, hasVoid bool, vi voidInfo, vDrift, vSkip bool) *prog.Failure {
+	a := m.last[u]
+	required := m.current(u, m.mver[u])
+	if f := tc.fetched[u]; len(f) > 0 {
+		required = map[dkey]bool{}
+		for k, own := range f[len(f)-1] {
+			if own {
+				required[k] = true
+			}
+		}
+	}
+	for _, k := range sortedKeys(required) {
+		if m.role != "sync" && k.slot != tc.slot {
+			continue
+		}
+		m.obligations++
+		if m.seen[seenKey{m.primary(), k.val, tc.slot}] {
+			m.classes["voided:refetched-and-dispatched"] = true
+			continue
+		}
+		// Identify the mechanism (facts since this epoch / period was last fetched):
+		//  at-rollover: the notice that voided it last was stamped in an earlier epoch / period (it
+		//    voided the "next" one) and no tick of an earlier epoch / period was processed after it,
+		//    i.e. the handler had no tick left to re-fetch it as "next";
+		//  skipped-tick: the tick that triggers its pre-fetch was skipped;
+		//  clock-behind-ticker: a notice that voided it was evaluated with the clock behind the ticker.
+		sig := base
+		switch {
+		case hasVoid && vi.stampUnit < u && !vi.tickSince:
+			sig = "missed-after-notice-at-rollover"
+		case vSkip:
+			sig = "missed-after-notice-and-skipped-tick"
+		case vDrift:
+			sig = "missed-after-notice-with-clock-behind-ticker"
+		}
+		if full := "C16:" + m.role + "-" + sig; m.storeMode || prog.IsKnown(full) {
+			if !m.knownSeen[full] && !m.storeMode { // counted once per program; the case goes on behind it
+				m.knownSeen[full] = true
+				prog.KnownHit(testName, full)
+			}
+			m.classes["known:"+sig] = true
+			return nil
+		}
+		state := "still holds the voided one"
+		switch {
+		case a == nil:
+			state = "has never fetched it successfully"
+		case a.valid:
+			state = "fetched it during this tick"
+		}
+		if base == "missed-after-notice" {
+			return m.failf(sig, "%s: %v duty of validator %d at slot %d of the beacon node's current assignment for epoch/period %d was not dispatched: an assignment for it had been fetched successfully before, a %s notice (stamped in epoch/period %d) voided it last, no fetch has failed since, and the handler %s", step, m.primary(), k.val, tc.slot, u, vi.kind, vi.stampUnit, state)
+		}
+		return m.failf(sig, "%s: %v duty of validator %d at slot %d of the beacon node's current assignment for epoch/period %d was not dispatched: a beacon-node duties call failed earlier, but every call since succeeded and the handler has processed %d tick(s) inside the window in which it (re-)fetches that epoch/period (healthy ticks since the failure: slots %v); the handler %s", step, m.primary(), k.val, tc.slot, u, m.healthyTicks(u), m.goodTicks, state)
 	}
 	return nil
 }
@@ -531,7 +621,7 @@ func execute(p Prog, test string, probe *storeProbe) *prog.Result {
 	w.clock.Store(clock)
 
 	m := &model{role: p.Role, last: map[uint64]*assign{}, seen: map[seenKey]bool{}, classes: map[string]bool{"role=" + p.Role: true},
-		failsSince: map[uint64]int{}, anyFail: map[uint64]bool{}, lastVoid: map[uint64]*voidInfo{}, driftSince: map[uint64]bool{}, skipTrig: map[uint64]bool{}, knownSeen: map[string]bool{}, failsTotal: map[uint64]int{}, skippedSlots: map[uint64]bool{}, mver: map[uint64]int{}, grace: map[uint64]bool{}}
+		failsSince: map[uint64]int{}, anyFail: map[uint64]bool{}, lastVoid: map[uint64]*voidInfo{}, driftSince: map[uint64]bool{}, skipTrig: map[uint64]bool{}, knownSeen: map[string]bool{}, from: map[uint64]int{}, intentCur: map[uint64]bool{}, pendingFail: map[uint64]bool{}, failsTotal: map[uint64]int{}, skippedSlots: map[uint64]bool{}, mver: map[uint64]int{}, grace: map[uint64]bool{}}
 	m.current = w.ownDuties
 	m.storeMode = probe != nil
 	h, st := newHandler(p.Role)
